@@ -88,6 +88,7 @@ pub enum NKey {
     TwinB(u8),
     TwinC(u8),
     TwinD(u8),
+    TwinX(u8, u8),
     /// node created by intern_value
     IVal(Row),
     /// node created by intern_ref
